@@ -30,7 +30,7 @@ KIND2PC = {
 
 
 class Fixture(object):
-    def __init__(self, reqs, bg=False, lines=False):
+    def __init__(self, reqs, bg=False, lines=False, callbacks=False):
         import rpyc
         from rpyc.core import protocol, consts, brine
         from rpyc.core.channel import Channel
@@ -46,6 +46,8 @@ class Fixture(object):
         self.outcome = {}          # request -> ('ok', value) | ('exc', repr)
         self.done_at = {}
         self.dispatch_count = {}   # seq -> times dispatched
+        self.callbacks = callbacks  # every client registers a callback on its result right after issuing the request
+        self.cb_log = []
         fx = self
         # -- observed AsyncResult: reads/writes of the ready flag are scheduling points
         self._saved = []
@@ -120,7 +122,7 @@ class Fixture(object):
         self.lines = None
         if lines:
             fns = [type(conn).serve, type(conn)._dispatch, type(conn)._seq_request_callback, type(conn)._async_request,
-                   type(conn).async_request, type(conn).sync_request, base.wait, base.__call__, base.value]
+                   type(conn).async_request, type(conn).sync_request, base.wait, base.__call__, base.value, base.add_callback]
             self.lines = sim.LineYields(s, fns)
             self.lines.__enter__()
 
@@ -129,6 +131,8 @@ class Fixture(object):
             try:
                 res = self.conn.async_request(self.consts.HANDLE_PING, tag(r), timeout=FAR)
                 self.results[r] = res
+                if self.callbacks:
+                    res.add_callback(lambda ar, r=r: self.cb_log.append(r))
                 v = res.value
                 self.outcome[r] = ("ok", v)
             except BaseException as ex:  # noqa
@@ -240,10 +244,10 @@ class Env(object):
         self.pending = None
 
 
-def run_impl(reqs, bg, chooser, lines=False, max_steps=6000, max_bg_loops=12, eof=False):
+def run_impl(reqs, bg, chooser, lines=False, max_steps=6000, max_bg_loops=12, eof=False, callbacks=False):
     """One execution of the real code.  chooser(list_of_choices, sched) -> choice.
     Returns dict(trace, stalls, hangs, outcome, fx-derived facts)."""
-    fx = Fixture(reqs, bg, lines)
+    fx = Fixture(reqs, bg, lines, callbacks)
     s = fx.sched
     trace = []
     stalls = []      # (thread, where, received_by, woke_after_publication, req)
@@ -346,6 +350,7 @@ def run_impl(reqs, bg, chooser, lines=False, max_steps=6000, max_bg_loops=12, eo
                 ev["condlock"] = fx.owner(fx.conn._recv_event._lock)
             trace.append(ev)
         out = {"trace": trace, "stalls": stalls, "problems": problems, "outcome": dict(fx.outcome), "eof": eof_done,
+               "cb_log": list(fx.cb_log), "callbacks": callbacks,
                "closed": bool(getattr(fx.conn, "closed", False)),
                "dispatch_count": dict(fx.dispatch_count), "seqs": [q for _, q in fx.sent_requests()],
                "white": fx.white, "excs": {n: repr(t.exc) for n, t in fx.clients.items() if t.exc is not None}}
@@ -546,14 +551,31 @@ def line_preempt_chooser(point, occurrence, seen=None, budget=400):
     return choose
 
 
-def explore_line_preemptions(chk, cfgname, on_result, max_points=None):
+def judge_callbacks(res, reqs):
+    """C15 with threads: a callback registered on a result that gets its reply runs exactly once - also when the reply is
+    dispatched by another thread while the callback is being registered"""
+    bad = []
+    if not res.get("callbacks"):
+        return bad
+    for t, rs in reqs.items():
+        for r in rs:
+            o = res["outcome"].get(r)
+            if o is None:
+                continue
+            n = res["cb_log"].count(r)
+            if n != 1:
+                bad.append(("callback-count", "the callback registered on the result of %s (outcome %r) ran %d time(s)" % (r, o, n)))
+    return bad
+
+
+def explore_line_preemptions(chk, cfgname, on_result, max_points=None, callbacks=False):
     """every source line of serve / _dispatch / AsyncResult.__call__ / wait / value ... as the one place where the running thread
     is set aside while the others run: the schedules in which a reader sees a half-finished update"""
     cfg = CONFIGS[cfgname]
     seen = set()
     ch = line_preempt_chooser(("", -1), 1, seen)
-    res = run_impl(cfg["reqs"], cfg["bg"], ch, lines=True)
-    on_result(res, cfg, {"mode": "indices", "config": cfgname, "lines": True, "indices": ch.record})
+    res = run_impl(cfg["reqs"], cfg["bg"], ch, lines=True, callbacks=callbacks)
+    on_result(res, cfg, {"mode": "indices", "config": cfgname, "lines": True, "indices": ch.record, "callbacks": callbacks})
     # a second discovery run with random switching sees the lines of paths the straight run does not take
     rr = random_chooser(random.Random(chk.seed + 5), 0.5)
     seen2 = set()
@@ -565,8 +587,8 @@ def explore_line_preemptions(chk, cfgname, on_result, max_points=None):
                 seen2.add(tuple(o.info))
         return rr(choices, s)
     spy.record = rr.record
-    res = run_impl(cfg["reqs"], cfg["bg"], spy, lines=True)
-    on_result(res, cfg, {"mode": "indices", "config": cfgname, "lines": True, "indices": rr.record})
+    res = run_impl(cfg["reqs"], cfg["bg"], spy, lines=True, callbacks=callbacks)
+    on_result(res, cfg, {"mode": "indices", "config": cfgname, "lines": True, "indices": rr.record, "callbacks": callbacks})
     points = sorted(seen | seen2)
     if max_points is not None and len(points) > max_points:
         random.Random(chk.seed + 11).shuffle(points)
@@ -575,12 +597,12 @@ def explore_line_preemptions(chk, cfgname, on_result, max_points=None):
     for pt in points:
         for occ in (1, 2, 3):
             ch = line_preempt_chooser(pt, occ)
-            res = run_impl(cfg["reqs"], cfg["bg"], ch, lines=True)
-            on_result(res, cfg, {"mode": "indices", "config": cfgname, "lines": True, "indices": ch.record})
+            res = run_impl(cfg["reqs"], cfg["bg"], ch, lines=True, callbacks=callbacks)
+            on_result(res, cfg, {"mode": "indices", "config": cfgname, "lines": True, "indices": ch.record, "callbacks": callbacks})
             n += 1
             if n % 100 == 0:
                 gc.collect()
-    chk.cov["line_preemptions_%s" % cfgname] = {"points": len(points), "runs": n}
+    chk.cov["line_preemptions_%s%s" % (cfgname, "_cb" if callbacks else "")] = {"points": len(points), "runs": n}
     return n
 
 
